@@ -24,6 +24,9 @@ T1_FLAGS = ["-Dpthread_create=t1_pthread_create"]
 OPAQUE = -777777          # rt_canon of a 64-bit value >= 2^40 (waiting_writers lives in bits 43..63)
 
 
+L_REST = 3900     # search mode: byte b of the fiber_rwlock_t = 3900 + b (bytes registered otherwise keep their locs)
+
+
 def parse_case(case):
     v = [int(x) for x in case.split()]
     i = 1 + v[0]
@@ -47,6 +50,9 @@ def canon(v):
 def monitor(case, tr, raw):
     if tr is None:
         return "implementation produced no trace: %s" % (raw or "")[:80]
+    # search mode (RT_CATCHALL=1): accesses to bytes of the object(s) that have no location of their own are
+    # scheduling points, not events of the protocol judged here
+    tr = [e for e in tr if e[1] < L_REST or e[2] in (909, 919)]
     try:
         return _monitor(case, tr)
     except (IndexError, KeyError, ValueError) as e:      # a trace no correct run can produce
@@ -336,11 +342,12 @@ def search(ctx, exe):
         cases = gen_cases(c2, "thorough")[:20000]
     finally:
         c2.cleanup()
-    impl = core.run_sharded([exe], cases)
+    # RT_CATCHALL: every byte of the rwlock object is a scheduling point (fields the model does not know included)
+    impl = core.run_sharded(["env", "RT_CATCHALL=1", exe], cases)
     for c, line in zip(cases, impl):
-        why = monitor(c, core.parse_trace(line) if line else None, line)
+        why = core.safe_monitor(monitor, c, core.parse_trace(line) if line else None, line)
         if why:
-            core.report_violation(ctx, "rwlock", c, why, line)
+            core.report_violation(ctx, "rwlock+catchall", c, why, line)
             if len(ctx.violations) >= 3:
                 break
 
@@ -351,6 +358,11 @@ def replay(ctx, payload):
     if not exe or not c:
         print("nothing to replay (no concrete case in this file)")
         return 2
+    if str(payload.get("harness", "")).endswith("+catchall"):
+        impl = core.run_sharded(["env", "RT_CATCHALL=1", exe], [c])[0]
+        why = core.safe_monitor(monitor, c, core.parse_trace(impl) if impl is not None else None, impl)
+        print("case:  %s\nimpl (every byte of the object a scheduling point):  %s\nmonitor: %s" % (c, impl, why or "ok"))
+        return 1 if why else 0
     impl = core.run_sharded([exe], [c])[0]
     mod = core.model_run("rwlock", [c])[0]
     why = monitor(c, core.parse_trace(impl), impl)
